@@ -136,9 +136,21 @@ def run_schedule(h, cfg, prefix, record=False):
     opts.update(cfg.get('sched_opts', {}))
     r = _sched.run_once(ex.body, prefix, monitor=ex.monitor if callable(ex.monitor) else None,
                         record=record, **opts)
-    import gc
-    gc.collect()
+    _gc_tick()
     return ex, r
+
+
+_gc_count = [0]
+
+
+def _gc_tick():
+    # cycles created by an execution are all young (the collector is disabled while it runs)
+    import gc
+    _gc_count[0] += 1
+    if _gc_count[0] % 500 == 0:
+        gc.collect()
+    else:
+        gc.collect(0)
 
 
 def explore_job(job):
@@ -150,6 +162,9 @@ def explore_job(job):
     if ck not in h._warm:
         run_schedule(h, cfg, [])      # discarded warm-up (lazy module state)
         h._warm.add(ck)
+        import gc
+        gc.collect()
+        gc.freeze()
     stack = [list(p) for p in job['prefixes']]
     budget = job['budget']
     tlimit = _sched.REAL.perf_counter() + job.get('tbudget', 5.0)
@@ -185,7 +200,7 @@ def explore_job(job):
                 if len(r.choices) < len(ent['choices']):
                     ent['choices'] = list(r.choices)
                     ent['detail'] = detail
-        if first or job.get('recheck_all'):
+        if first or job.get('recheck_all') or res['execs'] % 25 == 0:
             # determinism: the complete choice list must reproduce the same execution
             first = False
             ex2, r2 = run_schedule(h, cfg, list(r.choices))
@@ -210,7 +225,7 @@ def explore_job(job):
                 elif cost + 1 <= bound:
                     for alt in range(1, n):
                         stack.append(ch[:i] + [alt])
-            if kind == 's' and ch[i] != 0:
+            if kind != 'c' and ch[i] != 0:
                 cost += 1
     res['leftover'] = stack
     return res
